@@ -1,6 +1,6 @@
 (* executable wrappers comparing the C05 models with observations of the implementation *)
 From Coq Require Import ZArith List Bool.
-From PR Require Import Base.ZX Base.ListX Base.Slice Model.Partition Model.Blockwise.
+From PR Require Import Base.ZX Base.ListX Base.Slice Model.Partition Model.Blockwise Model.BlockwiseValid.
 Import ListNotations.
 Open Scope Z_scope.
 
@@ -39,3 +39,8 @@ Definition chk_dims (c : list Z * list Z * list Z * (Z * Z * Z * Z) * (list Z * 
   let '(dims, sizes, geo, (y, x, H, W), (edims, eshape)) := c in
   let m := result_meta y x (mk_meta dims sizes 0 []) geo H W in
   zl_eqb (m_dims m) edims && zl_eqb (m_shape m) eshape.
+
+(* neighbour-info cache of one KDTreeNearestXarrayResampler instance over a history of resample() calls:
+   (identity of each call's cache key, observed len(_internal_cache) after each call) *)
+Definition chk_cache (c : list Z * list Z) : bool :=
+  let '(ids, sizes) := c in zl_eqb (run_sizes (fun m : Z => m) Z.eqb (fun m : Z => m) [] ids) sizes.
